@@ -1,9 +1,10 @@
 /* C19: assembly of the listing by src/list.c - list_file_basic / list_file_verbose -> list_file_contents ->
- * print_list_headings, print_list_separators, print_columns, print_footers (all real) - for one command per harness
+ * print_columns, print_footers (all real) - for one command per harness
  * (-DCMD 0 l, 1 lv, 2 v, 3 vv), every quiet level 0..2 and 0..NHDR members with arbitrary sizes.
  * The per-column handlers and footers are replaced (driver rename_defs) by stubs that emit ONE marker token naming
  * the field and the member shown (footers: the total they are given); the reference renderer runs in the same
- * marker mode.  Compared: headings and separator lines byte for byte, the order of rows and of the fields in a row,
+ * marker mode; print_list_headings / print_list_separators are likewise replaced by one marker naming the column set
+ * (their bytes are compared by head.*).  Compared: presence and place of heading and separator lines, the order of rows and of the fields in a row,
  * separating blanks, line ends, blank fill of footer-less columns, count and 32-bit totals, quiet handling.
  * What each handler prints for its field is compared with the reference by the col.* harnesses. */
 #define REF_MARKERS 1
@@ -31,6 +32,14 @@ static void size_column_footer(FileStatistics *stats) { out_mark(REF_F_TOTAL_SIZ
 static void ratio_column_footer(FileStatistics *stats) { out_mark(REF_F_TOTAL_RATIO, NULL, (u64) stats->compressed_length << 32 | stats->length); }
 static void timestamp_column_footer(FileStatistics *stats) { out_mark(REF_F_TOTAL_STAMP, NULL, stats->timestamp); }
 static void full_timestamp_column_footer(FileStatistics *stats) { out_mark(REF_F_TOTAL_FULLSTAMP, NULL, stats->timestamp); }
+
+static u64 comp_set_of(ListColumn **columns)
+{
+	return columns == normal_column_headers ? REF_L : columns == normal_column_headers_verbose ? REF_LV
+	     : columns == verbose_column_headers ? REF_V : columns == verbose_column_headers_verbose ? REF_VV : 99;
+}
+static void print_list_headings(ListColumn **columns) { out_mark(REF_F_HEADING, NULL, comp_set_of(columns)); }
+static void print_list_separators(ListColumn **columns) { out_mark(REF_F_SEPARATOR, NULL, comp_set_of(columns)); }
 
 void harness(void)
 {
@@ -60,7 +69,7 @@ void harness(void)
 			c19_segment();
 		}
 	}
-	CHECK(rows > 3 * 70, "headings, separators, rows and footer were written");
+	CHECK(rows > 3 + 3 * 10 + 10, "headings, separators, rows and footer were written");
 	CHECK(c19_segments == 3 * (NHDR + 1), "all quiet levels and member counts were compared");
 	WITNESS("end");
 }
